@@ -203,6 +203,9 @@ def expected(r, run, now, avail):
     return exp
 
 
+HUGE_MODE = [False]
+
+
 def compare(ctx, run, observers, now, avail, step_info):
     r = run.r
     exp = expected(r, run, now, avail)
@@ -221,6 +224,9 @@ def compare(ctx, run, observers, now, avail, step_info):
             for ent, w in want.items():
                 ctx.count("values_checked")
                 got = float(arr[ent, 0])
+                if HUGE_MODE[0]:
+                    w = float(np.float32(w))      # the carrier is float32 by design
+                    ctx.count("values_checked_as_float32_rounding")
                 if got != w:
                     wit = {"observer": name, "feature": ft.value, "entity": ent, "got": got,
                            "want": w, "history": list(r.history), "filter": run.filter_names,
@@ -263,6 +269,7 @@ def check_composite(ctx, comp, parts, where):
 
 def run_history(ctx, case):
     from job_shop_lib.dispatching.feature_observers import CompositeFeatureObserver
+    HUGE_MODE[0] = bool(case.get("huge"))
     rng = random.Random(case["seed"])
     run = Run(case["instance"], case.get("filter"))
     d, r = run.d, run.r
@@ -361,17 +368,24 @@ def run_construct(ctx, case):
     from job_shop_lib.dispatching import Dispatcher
     inst = case["instance"]
     instance = gen.build(inst)
+    rng_c = random.Random(case["seed"])
     for t in TYPES:
         sup = SUPPORTED.get(t, FT)
         subsets = [None] + [list(c) for k in range(1, len(sup) + 1) for c in itertools.combinations(sup, k)]
         for fts in subsets:
             for form in ("class", "string"):
                 d = Dispatcher(instance)
+                if rng_c.random() < 0.3:
+                    # other observers that track only some feature types are already subscribed
+                    pre = rng_c.choice(["remaining_operations", "is_completed", "duration", "is_ready"])
+                    sup_pre = SUPPORTED.get(pre, FT)
+                    make_observer(d, {"type": pre, "feature_types": [rng_c.choice(sup_pre)], "form": "class"})
+                    ctx.count("constructions_with_partial_observers_present")
                 ctx.count("constructions")
                 try:
                     ob = make_observer(d, {"type": t, "feature_types": fts, "form": form})
                     want = set(fts or sup)
-                    if {k.value for k in ob.features} != want or ob not in d.subscribers:
+                    if {k.value for k in ob.features} != want or not any(x is ob for x in d.subscribers):
                         ctx.violation("c11_constructed_observer_feature_types",
                                       {"observer": t, "requested": fts,
                                        "got": sorted(k.value for k in ob.features)})
